@@ -449,7 +449,7 @@ impl QueuingExecutor {
             forall|k: usize| #![auto] k != task_id.0 as usize && old(self).slots().dom().contains(k) ==> final(self).slots().dom().contains(k) && final(self).slots()[k] == old(self).slots()[k], // [C01+C13/executor-run_task/no-other-task-touched]
             core_havoc(*old(w), *final(w)), // [C01+C03/executor-run_task/emitted-events-and-effects-only-appended]
 //@rule X4.lock-erasure 3 s/self\s*\.tasks\s*\.lock\(\)\s*\.(?:expect\("[^"]*"\)|unwrap\(\))/(&mut self.tasks.inner)/
-//@rule X4.guard-drop * s#\bdrop\(lock\);#{ } /* drop(lock): after X4 the guard is a plain exclusive borrow whose scope ends here */#
+//@rule X4.guard-drop * s#\bdrop\((\w+)\);#{ } /* drop(\1): after X4 the guard is a plain exclusive borrow whose scope ends here */#
 //@rule X7.deref-TaskId * s/\*task_id\b/task_id.0/
 //@rule X6.world * s/\.poll\(/.poll(Tracked(w), /
 //@end
@@ -838,7 +838,7 @@ pub mod core_m {
 //@rule X6.world * s/\.update\(/.update(Tracked(w), /
 //@rule X6.world * s/\.spawn\(/.spawn(Tracked(w), /
 //@rule X6.world * s/self\.process\(\)/self.process(Tracked(w))/
-//@rule X4.guard-drop * s/\bdrop\(model\);/drop_write_guard(Tracked(w), model);/
+//@rule X4.guard-drop 1 s/\bdrop\((\w+)\);/drop_write_guard(Tracked(w), \1);/
 //@end
 
 //@extract id=Core::resolve file=crux_core/src/core/mod.rs within="impl<A> Core<A>" item="fn resolve" props=C01+C02+C03
@@ -880,7 +880,7 @@ pub mod core_m {
 //@rule X6.world * s/\.write\(\)/.write(Tracked(w))/
 //@rule X6.world * s/\.update\(/.update(Tracked(w), /
 //@rule X6.world * s/\.spawn\(/.spawn(Tracked(w), /
-//@rule X4.guard-drop * s/\bdrop\(model\);/drop_write_guard(Tracked(w), model);/
+//@rule X4.guard-drop 1 s/\bdrop\((\w+)\);/drop_write_guard(Tracked(w), \1);/
 //@rule X13.collect 1 s/self\.requests\.drain\(\)\.collect\(\)/collect_drain(Tracked(w), self.requests.drain())/
 //@loops 1
 //@loop 1
@@ -1058,21 +1058,6 @@ pub mod command_m {
             final(w).p_polls == old(w).p_polls + 1,
             old(w).aborted_tasks.subset_of(final(w).aborted_tasks),
     { unimplemented!() }
-    /// ghost bookkeeping of run_task's verdict (rule X1.ghost-verdict): returns its argument
-    pub fn verdict(Tracked(w): Tracked<&mut World>, task: &Task, r: TaskState) -> (out: TaskState)
-        ensures
-            out == r,
-            (r is Completed || r is Cancelled) ==> *final(w) == (World { finished: old(w).finished.insert(val_id(*task)), ..*old(w) }),
-            !(r is Completed || r is Cancelled) ==> *final(w) == *old(w),
-    {
-        proof {
-            if r is Completed || r is Cancelled {
-                w.finished = w.finished.insert(val_id(*task));
-            }
-        }
-        r
-    }
-
     impl Task {
         // ASSUMED: `self.aborted.load(Ordering::Acquire)` reads the task's own abort flag (set by
         // JoinHandle::abort), read sequentially
@@ -1157,7 +1142,7 @@ pub mod command_m {
 
 //@extract id=Command::run_task file=crux_core/src/command/executor.rs within="impl<Effect, Event> Command<Effect, Event>" item="fn run_task" props=C01+C06+C07+C13
 //@expect pub(crate) fn run_task(&mut self, task_id: TaskId) -> TaskState
-//@sig pub fn run_task(&mut self, Tracked(w): Tracked<&mut World>, task_id: TaskId) -> (r: TaskState)
+//@sig pub fn run_task_inner(&mut self, Tracked(w): Tracked<&mut World>, task_id: TaskId) -> (r: TaskState)
 //@contract
             requires
                 old(self).wf(),
@@ -1169,8 +1154,7 @@ pub mod command_m {
                 final(w).known == old(w).known,
                 r is Missing <==> !old(self).tasks@.dom().contains(task_id.0), // [C01/command-run_task/missing-iff-the-slot-is-vacant]
                 r is Missing ==> *final(w) == *old(w), // [C01/command-run_task/a-vacant-slot-changes-nothing]
-                (r is Completed || r is Cancelled) ==> final(w).finished == old(w).finished.insert(val_id(old(self).tasks@[task_id.0])),
-                (r is Suspended || r is Missing) ==> final(w).finished == old(w).finished,
+                final(w).finished == old(w).finished,
                 r is Completed ==> old(w).aborted_tasks.contains(val_id(old(self).tasks@[task_id.0])) || !final(w).p_pending, // [C07/command-run_task/a-task-is-reported-completed-only-if-aborted-or-its-future-finished]
                 r is Cancelled ==> final(w).p_pending && !final(w).p_woken && final(w).p_refs < 2, // [C07+C13/command-run_task/a-task-is-discarded-as-cancelled-only-when-nothing-can-wake-it-again]
                 r is Suspended ==> final(w).p_pending && (final(w).p_woken || final(w).p_refs >= 2), // [C07+C13/command-run_task/a-pending-task-that-nothing-can-wake-again-is-not-kept]
@@ -1187,9 +1171,42 @@ pub mod command_m {
 //@rule X6.poll-waker 1 s/arc_waker\.woken\.load\(Ordering::Acquire\)/poll_waker_woken(Tracked(w), &arc_waker)/
 //@rule X6.poll-waker 1 s/Arc::strong_count\(&arc_waker\)/poll_waker_refs(Tracked(w), &arc_waker)/
 //@rule X14.enum-eq * s/\bresult == TaskState::(\w+)/matches!(result, TaskState::\1)/
-//@rule X1.ghost-verdict * s/return TaskState::(Completed|Cancelled);/return verdict(Tracked(w), task, TaskState::\1);/
-//@rule X1.ghost-verdict 1 s/\n(\s+)result\n(\s+)\}$/\n\1verdict(Tracked(w), task, result)\n\2}/
 //@end
+        /// `run_task` as its callers see it: the extracted body (`run_task_inner`, above) plus the
+        /// ghost bookkeeping of its verdict - a task reported Completed or Cancelled is recorded
+        /// in `finished`. Template code, verified; erased at run time it is the extracted body.
+        pub fn run_task(&mut self, Tracked(w): Tracked<&mut World>, task_id: TaskId) -> (r: TaskState)
+            requires
+                old(self).wf(),
+            ensures
+                final(self).wf(),
+                final(self).tasks@.dom() =~= old(self).tasks@.dom(),
+                forall|k: usize| #[trigger] old(self).tasks@.dom().contains(k) ==> val_id(final(self).tasks@[k]) == val_id(old(self).tasks@[k]),
+                forall|k: usize| #[trigger] old(self).tasks@.dom().contains(k) && k != task_id.0 ==> final(self).tasks@[k] == old(self).tasks@[k],
+                final(w).known == old(w).known,
+                r is Missing <==> !old(self).tasks@.dom().contains(task_id.0),
+                r is Missing ==> *final(w) == *old(w),
+                (r is Completed || r is Cancelled) ==> final(w).finished == old(w).finished.insert(val_id(old(self).tasks@[task_id.0])),
+                (r is Suspended || r is Missing) ==> final(w).finished == old(w).finished,
+                r is Completed ==> old(w).aborted_tasks.contains(val_id(old(self).tasks@[task_id.0])) || !final(w).p_pending,
+                r is Cancelled ==> final(w).p_pending && !final(w).p_woken && final(w).p_refs < 2,
+                r is Suspended ==> final(w).p_pending && (final(w).p_woken || final(w).p_refs >= 2),
+                old(self).tasks@.dom().contains(task_id.0) && old(w).aborted_tasks.contains(val_id(old(self).tasks@[task_id.0])) ==> r is Completed && final(w).p_polls == old(w).p_polls && final(w).c_events == old(w).c_events && final(w).c_effects == old(w).c_effects,
+                final(w).p_polls <= old(w).p_polls + 1,
+                cmd_outputs_appended(*old(w), *final(w)),
+                old(w).c_aborted ==> final(w).c_aborted,
+                final(w).join_notified == old(w).join_notified,
+        {
+            let ghost id = val_id(self.tasks@[task_id.0]);
+            let r = self.run_task_inner(Tracked(w), task_id);
+            proof {
+                if r is Completed || r is Cancelled {
+                    w.finished = w.finished.insert(id);
+                }
+            }
+            r
+        }
+
 
 //@extract id=Command::abort_handle file=crux_core/src/command/mod.rs within="impl<Effect, Event> Command<Effect, Event>" item="fn abort_handle" props=C06
 //@expect pub fn abort_handle(&self) -> AbortHandle
